@@ -186,6 +186,51 @@ func c04nExecute(c *c04nCase, base string) (fail *vh.Failure, labels []string, n
 			}
 		}
 	}
+	// The end of the stream: the observer is connected (long poll behind its last message) when
+	// its own QUIT is applied. What that entry addresses to the observer (the relayed QUIT, ERROR
+	// :Closing Link) belongs to its stream like everything before.
+	if _, err := ircServer.GetSession(robust.Id{Id: who[0].Num}); err == nil {
+		lastseen := fmt.Sprintf("%d.%d", full[len(full)-1].Id.Id, full[len(full)-1].Id.Reply)
+		type res struct {
+			msgs []streamed
+			code int
+		}
+		done := make(chan res, 1)
+		go func() {
+			m, c := n.readStream(who[0], who[0].Auth, lastseen, nil, 3*time.Second)
+			done <- res{m, c}
+		}()
+		time.Sleep(15 * time.Millisecond)
+		if code := post(who[0], "QUIT :the end"); code == 200 {
+			quitID := robust.IdFromRaftIndex(node.LastIndex())
+			r := <-done
+			var want []streamed
+			if batch, ok := outputStream.Get(robust.Id{Id: quitID}); ok {
+				for _, m := range batch {
+					if m.InterestingFor[who[0].Num] {
+						want = append(want, streamed{Id: m.Id, Data: m.Data})
+					}
+				}
+			}
+			lab["c04n:connected-while-own-session-ends"] = true
+			var got []streamed
+			for _, m := range r.msgs {
+				if m.Id.Id == quitID {
+					got = append(got, m)
+				}
+			}
+			if len(got) != len(want) {
+				return vh.Failf("node:last-messages-of-ending-session-missing", "the observer was connected (lastseen=%s) when its QUIT was applied as %d: that entry addresses %d messages to it (%v), the connection delivered %d of them before it was closed", lastseen, quitID, len(want), want, len(got)), keys2(lab), true
+			}
+			for j := range want {
+				if got[j].Id != want[j].Id || got[j].Data != want[j].Data {
+					return vh.Failf("node:resumed-stream-differs", "end of stream: message #%d is %v %q, the output stream holds %v %q", j, got[j].Id, got[j].Data, want[j].Id, want[j].Data), keys2(lab), true
+				}
+			}
+		} else {
+			<-done
+		}
+	}
 	return nil, keys2(lab), nontrivial
 }
 
